@@ -121,6 +121,23 @@ theorem sortKV_perm_invariant {α : Type} (kvs1 kvs2 : List (String × α))
     (hperm : kvs1.Perm kvs2) (hn : (kvs1.map (·.1)).Nodup) : Go.sortKV kvs1 = Go.sortKV kvs2 :=
   Go.sortKV_eq_of_perm hperm hn
 
+/-- the "properties" member as MarshalJSON writes it: an object whose key sequence is `orderedKeys`
+    (so everything above speaks about the emitted JSON text) -/
+theorem properties_emitted_in_order (st : Store) (rec : Go.MRec) (props : List (String × NodeId))
+    (order : List String) (j : Json) (h : Go.mProperties st rec props order = .ok j) :
+    ∃ es, j = .obj es ∧ es.map (·.1) = Go.orderedKeys props order :=
+  Go.mProperties_keys h
+
+/-- a `map[string]*Schema` keyword ($defs, definitions, patternProperties, dependentSchemas) is an object
+    whose keys are the map's keys in ascending order -/
+theorem schema_map_emitted_sorted (st : Store) (rec : Go.MRec) (kvs : List (String × NodeId)) (j : Json)
+    (h : Go.mSchemaMap st rec kvs = .ok j) :
+    ∃ es, j = .obj es ∧ (es.map (·.1)).Pairwise (· ≤ ·) ∧ (es.map (·.1)).Perm (kvs.map (·.1)) := by
+  obtain ⟨es, rfl, hk⟩ := Go.mSchemaMap_keys h
+  refine ⟨es, rfl, ?_, ?_⟩
+  · rw [hk]; exact Go.sortKV_keys_sorted kvs
+  · rw [hk]; exact (Go.sortKV_perm kvs).map _
+
 /-- Marshal is a function of the store and the root: there is no other input (no iteration order,
     no clock, no randomness) in the model, and the two theorems above say that the association-list
     order standing for Go's map iteration order does not matter either. -/
